@@ -92,6 +92,13 @@ type Case struct {
 	// source carries a TODO to that effect), the result must stay the smallest x with CDF(x)>=y.
 	// Only for kinds that are discrete: binom, hyper, udist, lattice.
 	AsDiscrete bool `json:"as_discrete,omitempty"`
+	// ReportedBounds, for the continuous and piecewise kinds (pw, tdist, kde): what the
+	// user-defined distribution's Bounds method reports instead of the tight support -
+	// "infinite" (-Inf,+Inf), "upper-infinite", "lower-infinite", or "huge" (-1e308,1e308: a
+	// width that overflows). Bounds only promises "reasonable bounds"; the quantile function in
+	// (0,1) must not depend on them, and the values at 0 and 1 follow the reported ends as stated
+	// (round 11, R11-C07).
+	ReportedBounds string `json:"reported_bounds,omitempty"`
 }
 
 // countedDiscrete is a counted distribution that also shows PMF and Step.
@@ -221,6 +228,25 @@ func build(c *Case) (*counted, string) {
 	default:
 		return nil, "unknown kind"
 	}
+	switch c.ReportedBounds {
+	case "":
+	case "infinite", "upper-infinite", "lower-infinite", "huge":
+		if c.Kind != "pw" && c.Kind != "tdist" && c.Kind != "kde" {
+			return nil, "reported_bounds on a discrete kind"
+		}
+		switch c.ReportedBounds {
+		case "infinite":
+			w.lo, w.hi = math.Inf(-1), math.Inf(1)
+		case "upper-infinite":
+			w.hi = math.Inf(1)
+		case "lower-infinite":
+			w.lo = math.Inf(-1)
+		case "huge":
+			w.lo, w.hi = -1e308, 1e308
+		}
+	default:
+		return nil, "unknown reported_bounds"
+	}
 	if c.AsDiscrete && c.Kind != "binom" && c.Kind != "hyper" && c.Kind != "udist" && c.Kind != "lattice" {
 		return nil, "as_discrete on a kind that is not discrete"
 	}
@@ -290,6 +316,9 @@ var checkInv = ev.Register("invcdf", func(c *Case) ev.Outcome {
 	classes := []string{c.Kind}
 	if c.AsDiscrete {
 		classes = append(classes, "handed-over-as-DiscreteDist")
+	}
+	if c.ReportedBounds != "" {
+		classes = append(classes, "reported-bounds-"+c.ReportedBounds)
 	}
 	if c.Kind == "pw" {
 		jump, flat := false, false
@@ -666,6 +695,8 @@ func drawDist(t *rapid.T) *Case {
 	}
 	if c.Kind == "binom" || c.Kind == "hyper" || c.Kind == "udist" || c.Kind == "lattice" {
 		c.AsDiscrete = rapid.Bool().Draw(t, "asDiscrete")
+	} else {
+		c.ReportedBounds = rapid.SampledFrom([]string{"", "", "", "infinite", "upper-infinite", "huge", "lower-infinite", ""}).Draw(t, "reportedBounds")
 	}
 	return c
 }
